@@ -25,9 +25,9 @@ def SecretsOK (g : GState) : Prop :=
     commit leaving epoch k is applied, and removed by a rollback to k) -/
 def NoForkSnapshot (c : Cl) : Prop := ∀ s ∈ c.mgr, s.epoch ≠ epochOf c.g.path
 
-theorem base_of (c : Cl) (hg : c.hasGroup = true) (hr : 1 ≤ c.retention) (hs : SecretsOK c.g) (hm : NoForkSnapshot c) :
+theorem base_of (c : Cl) (hg : c.hasGroup = true) (ha : c.g.active = true) (hr : 1 ≤ c.retention) (hs : SecretsOK c.g) (hm : NoForkSnapshot c) :
     Base c := by
-  refine ⟨hg, hr, ?_, ?_, hm⟩
+  refine ⟨hg, ha, hr, ?_, ?_, hm⟩
   · cases h : alookup (epochOf c.g.path) c.g.secrets with
     | none => exact Or.inl rfl
     | some q =>
@@ -48,7 +48,7 @@ theorem base_of (c : Cl) (hg : c.hasGroup = true) (hr : 1 ≤ c.retention) (hs :
     self-update, with non-zero timestamps, pairwise distinct event numbers, MIP-03 keys and MLS
     ciphertexts (a re-wrapped copy of a commit is the same commit, not a sibling), not yet seen, their
     ciphertexts not yet consumed by the client's ratchet -/
-structure SiblingsAnyId (c : Cl) (S : List Ev) : Prop where
+structure SiblingsCore (c : Cl) (S : List Ev) : Prop where
   path : ∀ e ∈ S, e.path = c.g.path
   kind : ∀ e ∈ S, ∃ b sw, e.kind = .commit b sw ∧ (isAdmin c.g e.sender || isPureSelfUpdate b sw) = true
   foreign : ∀ e ∈ S, e.sender ≠ c.id
@@ -60,9 +60,11 @@ structure SiblingsAnyId (c : Cl) (S : List Ev) : Prop where
   tag : ∀ e ∈ S, e.tag = c.g.recNid
 
 /-- … and none of them ROTATES the nostr group id (with a rotating sibling the theorem is false of the code:
-    `single_fork_any_id_full_false`, finding `h-rotation-in-flight`) -/
-structure Siblings (c : Cl) (S : List Ev) : Prop extends SiblingsAnyId c S where
+    `single_fork_any_id_full_false`, finding `h-rotation-in-flight`) nor REMOVES the receiver (an eviction is final
+    whatever the commit's rank: `single_fork_any_target_full_false`, finding `evicted-by-losing-commit`) -/
+structure Siblings (c : Cl) (S : List Ev) : Prop extends SiblingsCore c S where
   keepsId : ∀ e ∈ S, ∀ d sw, e.kind = .commit (.setData d) sw → d.nid = c.g.recNid
+  keepsMe : ∀ e ∈ S, ∀ b sw, e.kind = .commit b sw → removesMe c.id b sw = false
 
 /-- a body that is not an id rotation leaves the id where the record has it (given record = MLS state) -/
 theorem keeps_nid (c : Cl) (hn : c.g.recNid = c.g.nid) (b : Body)
@@ -71,10 +73,11 @@ theorem keeps_nid (c : Cl) (hn : c.g.recNid = c.g.nid) (b : Body)
   | selfUpdate => simp [applyBody, hn]
   | setData d => simp [applyBody, hk d rfl]
   | removeLeavers who => simp [applyBody, hn]
+  | addMembers who => simp [applyBody, hn]
 
 theorem sibs_of (c : Cl) (S : List Ev) (hn : c.g.recNid = c.g.nid) (h : Siblings c S) : Sibs c S where
   sib := fun e he => ⟨h.path e he, h.kind e he, by simpa using h.foreign e he, h.ts e he, h.unconsumed e he, h.tag e he,
-    fun b sw hk => keeps_nid c hn b (fun d hd => h.keepsId e he d sw (by rw [hk, hd]))⟩
+    fun b sw hk => keeps_nid c hn b (fun d hd => h.keepsId e he d sw (by rw [hk, hd])), h.keepsMe e he⟩
   inj := by
     intro e1 h1 e2 h2 hk
     by_cases x : e1 = e2
@@ -102,7 +105,7 @@ theorem sibs_of (c : Cl) (S : List Ev) (hn : c.g.recNid = c.g.nid) (h : Siblings
       * every other delivered sibling has a Failed (3) / EpochInvalidated (4) record: the dedup step
         refuses it from now on. -/
 theorem single_fork_bystander (c : Cl) (S : List Ev) (l : List Ev) (nx : Nat)
-    (hg : c.hasGroup = true) (hr : 1 ≤ c.retention) (hsec : SecretsOK c.g) (hm : NoForkSnapshot c)
+    (hg : c.hasGroup = true) (ha : c.g.active = true) (hr : 1 ≤ c.retention) (hsec : SecretsOK c.g) (hm : NoForkSnapshot c)
     (hn : c.g.recNid = c.g.nid)
     (hS : Siblings c S) (hl : ∀ e ∈ l, e ∈ S) (hne : l ≠ []) :
     ∃ w ∈ l, (∀ e ∈ l, e = w ∨ klt (key w) (key e) = true) ∧
@@ -110,7 +113,7 @@ theorem single_fork_bystander (c : Cl) (S : List Ev) (l : List Ev) (nx : Nat)
       wc (l.foldl (fun c e => (deliver c e nx).1) c).g [] = wc (childG c w) [] ∧
       (getRec (l.foldl (fun c e => (deliver c e nx).1) c) w.n).map (·.state) = some 2 ∧
       ∀ e ∈ l, e ≠ w → ∃ r, getRec (l.foldl (fun c e => (deliver c e nx).1) c) e.n = some r ∧ (r.state = 3 ∨ r.state = 4) := by
-  have hb := base_of c hg hr hsec hm
+  have hb := base_of c hg ha hr hsec hm
   have hSs := sibs_of c S hn hS
   have hrel := rel_run c hb S hSs nx l c ⟨none, []⟩ (rel_init c hb S hSs) (by simp [FInv]) hl
   obtain ⟨ka, hka, hap, hmin, hblk⟩ := single_fork (l.map key) (by simpa using hne)
@@ -141,6 +144,7 @@ def dataAfter (b : Body) (old : GData) : GData :=
 def membersAfter (b : Body) (sw : List Nat) (old : List Nat) : List Nat :=
   match b with
   | .removeLeavers who => (old.filter (fun m => !(who.contains m))).filter (fun m => !(sw.contains m))
+  | .addMembers who => (old ++ who.filter (fun m => !(old.contains m))).filter (fun m => !(sw.contains m))
   | _ => old.filter (fun m => !(sw.contains m))
 
 /-- what "the group state is `w`'s" means: name, description, admins, relays and nostr group id per the commit
@@ -194,7 +198,7 @@ theorem childG_keeps_data (c : Cl) (w : Ev) (b : Body) (sw : List Nat) (hk : w.k
 
 /-- the statement without the retention hypothesis -/
 def single_fork_bystander_full : Prop :=
-  ∀ (c : Cl) (S l : List Ev) (nx : Nat), c.hasGroup = true → SecretsOK c.g → NoForkSnapshot c → c.g.recNid = c.g.nid →
+  ∀ (c : Cl) (S l : List Ev) (nx : Nat), c.hasGroup = true → c.g.active = true → SecretsOK c.g → NoForkSnapshot c → c.g.recNid = c.g.nid →
     Siblings c S → (∀ e ∈ l, e ∈ S) → l ≠ [] →
     ∃ w ∈ l, (∀ e ∈ l, e = w ∨ klt (key w) (key e) = true) ∧
       (l.foldl (fun c e => (deliver c e nx).1) c).g.path = c.g.path ++ [w.cipher]
@@ -226,6 +230,10 @@ theorem by0_siblings0 : Siblings (by0 0) [cA, cB, cC] where
     intro e he d sw hk
     simp only [List.mem_cons, List.not_mem_nil, or_false] at he
     rcases he with rfl | rfl | rfl <;> simp [cA, cB, cC] at hk <;> (obtain ⟨rfl, _⟩ := hk; rfl)
+  keepsMe := by
+    intro e he b sw hk
+    simp only [List.mem_cons, List.not_mem_nil, or_false] at he
+    rcases he with rfl | rfl | rfl <;> simp [cA, cB, cC] at hk <;> (obtain ⟨rfl, rfl⟩ := hk; rfl)
 
 theorem by0_siblings5 : Siblings (by0 5) [cA, cB, cC] where
   path := by decide
@@ -246,6 +254,10 @@ theorem by0_siblings5 : Siblings (by0 5) [cA, cB, cC] where
     intro e he d sw hk
     simp only [List.mem_cons, List.not_mem_nil, or_false] at he
     rcases he with rfl | rfl | rfl <;> simp [cA, cB, cC] at hk <;> (obtain ⟨rfl, _⟩ := hk; rfl)
+  keepsMe := by
+    intro e he b sw hk
+    simp only [List.mem_cons, List.not_mem_nil, or_false] at he
+    rcases he with rfl | rfl | rfl <;> simp [cA, cB, cC] at hk <;> (obtain ⟨rfl, rfl⟩ := hk; rfl)
 
 /-- `retention-zero-no-rollback`: A then the better B with retention 0 — the client stays on A -/
 theorem witness_retention_zero :
@@ -254,7 +266,7 @@ theorem witness_retention_zero :
 
 theorem single_fork_bystander_full_false : ¬ single_fork_bystander_full := by
   intro h
-  obtain ⟨w, hw, hmin, hpath⟩ := h (by0 0) [cA, cB, cC] [cA, cB] 0 rfl (by0_secrets 0) (by0_nosnap 0) rfl by0_siblings0
+  obtain ⟨w, hw, hmin, hpath⟩ := h (by0 0) [cA, cB, cC] [cA, cB] 0 rfl rfl (by0_secrets 0) (by0_nosnap 0) rfl by0_siblings0
     (by decide) (by decide)
   have hwB : w = cB := by
     simp only [List.mem_cons, List.not_mem_nil, or_false] at hw
@@ -270,7 +282,7 @@ theorem single_fork_bystander_full_false : ¬ single_fork_bystander_full := by
 /-- non-vacuity: three siblings, a four-element delivery list with a repetition; the theorem applies
     (its hypotheses hold) and its conclusion is the MIP-03 winner B (ts 19, id 9 < C: ts 19, id 11 < A: ts 20) -/
 example : ∃ w ∈ [cA, cC, cA, cB], ([cA, cC, cA, cB].foldl (fun c e => (deliver c e 0).1) (by0 5)).g.path = (by0 5).g.path ++ [w.cipher] := by
-  obtain ⟨w, hw, _, hp, _⟩ := single_fork_bystander (by0 5) [cA, cB, cC] [cA, cC, cA, cB] 0 rfl (by decide)
+  obtain ⟨w, hw, _, hp, _⟩ := single_fork_bystander (by0 5) [cA, cB, cC] [cA, cC, cA, cB] 0 rfl rfl (by decide)
     (by0_secrets 5) (by0_nosnap 5) rfl by0_siblings5 (by decide) (by decide)
   exact ⟨w, hw, hp⟩
 
@@ -286,17 +298,18 @@ example : ([cA, cC, cA, cB].foldl (fun c e => (deliver c e 0).1) (by0 5)).g.path
   state — is refused as `GroupNotFound` before any MIP-03 comparison: the client stays on the rotating sibling whatever
   its rank (finding `h-rotation-in-flight`; replayed by corpus/C01/rotation_fork.trace). -/
 
-/-- the bystander statement for siblings that may rotate the id (`SiblingsAnyId`: everything but `keepsId`) -/
+/-- the bystander statement for siblings that may rotate the id (`SiblingsCore`: everything but `keepsId`) -/
 def single_fork_any_id_full : Prop :=
-  ∀ (c : Cl) (S l : List Ev) (nx : Nat), c.hasGroup = true → 1 ≤ c.retention → SecretsOK c.g → NoForkSnapshot c →
-    c.g.recNid = c.g.nid → SiblingsAnyId c S → (∀ e ∈ l, e ∈ S) → l ≠ [] →
+  ∀ (c : Cl) (S l : List Ev) (nx : Nat), c.hasGroup = true → c.g.active = true → 1 ≤ c.retention → SecretsOK c.g → NoForkSnapshot c →
+    c.g.recNid = c.g.nid → SiblingsCore c S → (∀ e ∈ S, ∀ b sw, e.kind = .commit b sw → removesMe c.id b sw = false) →
+    (∀ e ∈ l, e ∈ S) → l ≠ [] →
     ∃ w ∈ l, (∀ e ∈ l, e = w ∨ klt (key w) (key e) = true) ∧
       (l.foldl (fun c e => (deliver c e nx).1) c).g.path = c.g.path ++ [w.cipher]
 
 /-- admin 0 rotates the nostr group id (0 → 8), wrapper timestamp 20: loses to `cB` (timestamp 19) by MIP-03 -/
 def cR : Ev := { n := 4, ts := 20, idnum := 5, cipher := 4, sender := 0, path := [], kind := .commit (.setData { initData [0, 1] 1 with nid := 8 }) [] }
 
-theorem by0_siblings_rot : SiblingsAnyId (by0 5) [cR, cB] where
+theorem by0_siblings_rot : SiblingsCore (by0 5) [cR, cB] where
   path := by decide
   kind := by
     intro e he
@@ -322,7 +335,11 @@ theorem witness_rotation_fork :
 
 theorem single_fork_any_id_full_false : ¬ single_fork_any_id_full := by
   intro h
-  obtain ⟨w, hw, hmin, hpath⟩ := h (by0 5) [cR, cB] [cR, cB] 0 rfl (by decide) (by0_secrets 5) (by0_nosnap 5) rfl by0_siblings_rot
+  obtain ⟨w, hw, hmin, hpath⟩ := h (by0 5) [cR, cB] [cR, cB] 0 rfl rfl (by decide) (by0_secrets 5) (by0_nosnap 5) rfl by0_siblings_rot
+    (by
+      intro e he b sw hk
+      simp only [List.mem_cons, List.not_mem_nil, or_false] at he
+      rcases he with rfl | rfl <;> simp [cR, cB] at hk <;> (obtain ⟨rfl, rfl⟩ := hk; rfl))
     (by decide) (by decide)
   have hwB : w = cB := by
     simp only [List.mem_cons, List.not_mem_nil, or_false] at hw
@@ -333,6 +350,70 @@ theorem single_fork_any_id_full_false : ¬ single_fork_any_id_full := by
     · rfl
   subst hwB
   rw [witness_rotation_fork.2.1] at hpath
+  revert hpath; decide
+
+/-! ### the excluded case: a sibling that removes the receiver
+
+  `process_commit` merges a commit that removes the receiver's own leaf and marks the group Inactive at once
+  (`handle_local_member_eviction`) — whatever the commit's MIP-03 rank.  From then on every event fails before it is
+  even opened (`exporter_secret()?` of an inactive group), so a better sibling that arrives later is never compared
+  and never rolled back to: the member stays locked out although the branch everybody else converges on still has
+  it as a member (finding `evicted-by-losing-commit`; replayed by corpus/C01/evicted_by_losing_commit.trace). -/
+
+/-- the bystander statement for siblings that may remove the receiver (everything but `keepsMe`) -/
+def single_fork_any_target_full : Prop :=
+  ∀ (c : Cl) (S l : List Ev) (nx : Nat), c.hasGroup = true → c.g.active = true → 1 ≤ c.retention → SecretsOK c.g → NoForkSnapshot c →
+    c.g.recNid = c.g.nid → SiblingsCore c S → (∀ e ∈ S, ∀ d sw, e.kind = .commit (.setData d) sw → d.nid = c.g.recNid) →
+    (∀ e ∈ l, e ∈ S) → l ≠ [] →
+    ∃ w ∈ l, (∀ e ∈ l, e = w ∨ klt (key w) (key e) = true) ∧
+      (l.foldl (fun c e => (deliver c e nx).1) c).g.path = c.g.path ++ [w.cipher]
+
+/-- admin 0 removes member 2 (the receiver), wrapper timestamp 20: loses to `cB` (timestamp 19) by MIP-03 -/
+def cX : Ev := { n := 4, ts := 20, idnum := 5, cipher := 4, sender := 0, path := [], kind := .commit (.removeLeavers [2]) [] }
+
+theorem by0_siblings_evict : SiblingsCore (by0 5) [cX, cB] where
+  path := by decide
+  kind := by
+    intro e he
+    simp only [List.mem_cons, List.not_mem_nil, or_false] at he
+    rcases he with rfl | rfl
+    · exact ⟨_, [], rfl, by decide⟩
+    · exact ⟨_, [], rfl, by decide⟩
+  foreign := by decide
+  ts := by decide
+  distinct := by decide
+  unseen := by decide
+  unconsumed := by decide
+  tag := by decide
+
+/-- the removal first, then the MIP-03 winner (in which the receiver is still a member): evicted for good -/
+theorem witness_evicted_by_losing_sibling :
+    (deliver (by0 5) cX 0).2 = .commit ∧ (deliver (by0 5) cX 0).1.g.active = false ∧
+    (deliver (deliver (by0 5) cX 0).1 cB 0).2 = .err eExportSecret ∧
+    ([cX, cB].foldl (fun c e => (deliver c e 0).1) (by0 5)).g.path = [4] ∧
+    ([cX, cB].foldl (fun c e => (deliver c e 0).1) (by0 5)).g.active = false ∧
+    -- the other order: the winner first, the removal is refused as worse, the receiver stays a member
+    ([cB, cX].foldl (fun c e => (deliver c e 0).1) (by0 5)).g.path = [2] ∧
+    ([cB, cX].foldl (fun c e => (deliver c e 0).1) (by0 5)).g.active = true ∧
+    ([cB, cX].foldl (fun c e => (deliver c e 0).1) (by0 5)).g.members = [0, 1, 2] := by decide
+
+theorem single_fork_any_target_full_false : ¬ single_fork_any_target_full := by
+  intro h
+  obtain ⟨w, hw, hmin, hpath⟩ := h (by0 5) [cX, cB] [cX, cB] 0 rfl rfl (by decide) (by0_secrets 5) (by0_nosnap 5) rfl by0_siblings_evict
+    (by
+      intro e he d sw hk
+      simp only [List.mem_cons, List.not_mem_nil, or_false] at he
+      rcases he with rfl | rfl <;> simp [cX, cB] at hk <;> (obtain ⟨rfl, _⟩ := hk; rfl))
+    (by decide) (by decide)
+  have hwB : w = cB := by
+    simp only [List.mem_cons, List.not_mem_nil, or_false] at hw
+    rcases hw with rfl | rfl
+    · rcases hmin cB (by decide) with x | x
+      · exact x.symm
+      · revert x; decide
+    · rfl
+  subst hwB
+  rw [witness_evicted_by_losing_sibling.2.2.2.1] at hpath
   revert hpath; decide
 
 /-! ### the ciphertext hypotheses are needed too
@@ -376,6 +457,7 @@ structure OwnCommit (c : Cl) (o : Ev) : Prop where
   record : getRec c o.n = some { state := 2, epoch := some (epochOf c.g.path), hasGroup := true, mid := none }
   tag : o.tag = c.g.recNid
   keepsId : ∀ d sw, o.kind = .commit (.setData d) sw → d.nid = c.g.recNid
+  keepsMe : ∀ b sw, o.kind = .commit b sw → removesMe c.id b sw = false
 
 theorem secretsOK_ensure (g : GState) (h : SecretsOK g) : SecretsOK (ensureSecret g) := by
   unfold ensureSecret
@@ -395,7 +477,7 @@ theorem secretsOK_ensure (g : GState) (h : SecretsOK g) : SecretsOK (ensureSecre
     commit that does not rotate the nostr group id -/
 theorem stage_own_commit (c : Cl) (n ts idn : Nat) (b : Body) (na : Bool) (o : Ev)
     (hts : ts ≠ 0) (hsec : SecretsOK c.g) (hm : NoForkSnapshot c)
-    (hk : ∀ d, b = .setData d → d.nid = c.g.recNid)
+    (hk : ∀ d, b = .setData d → d.nid = c.g.recNid) (hme : removesMe c.id b c.g.props = false)
     (h : (stageCommit c n ts idn b na).2 = .ev o) :
     OwnCommit (stageCommit c n ts idn b na).1 o ∧ SecretsOK (stageCommit c n ts idn b na).1.g ∧
     NoForkSnapshot (stageCommit c n ts idn b na).1 ∧ (stageCommit c n ts idn b na).1.g.path = c.g.path ∧
@@ -407,27 +489,33 @@ theorem stage_own_commit (c : Cl) (n ts idn : Nat) (b : Body) (na : Bool) (o : E
     · cases h
     · split at h
       · cases h
-      · rename_i h1 h2 h3
-        simp only [h1, h2, h3, if_false, Bool.false_eq_true] at h ⊢
-        cases h
-        refine ⟨⟨by simp [setRec], ⟨b, _, rfl⟩, rfl, hts, by simp [setRec], ?_, by simp [setRec], ?_⟩, ?_, ?_, by simp [setRec],
-          by simp [setRec], by simp [setRec]⟩
-        · simp [setRec, getRec, Store.alookup_ainsert_self]
-        · intro d sw hd
-          simp only [Kind.commit.injEq] at hd
-          have := hk d hd.1
-          simpa [setRec] using this
-        · intro ep q hq
-          have := secretsOK_ensure c.g hsec ep q (by simpa [setRec] using hq)
-          simpa [setRec] using this
-        · intro s hs
-          have := hm s (by simpa [setRec] using hs)
-          simpa [setRec] using this
+      · split at h
+        · cases h
+        · rename_i h1 h0 h2 h3
+          simp only [h1, h0, h2, h3, if_false, Bool.false_eq_true] at h ⊢
+          cases h
+          refine ⟨⟨by simp [setRec], ⟨b, _, rfl⟩, rfl, hts, by simp [setRec], ?_, by simp [setRec], ?_, ?_⟩, ?_, ?_, by simp [setRec],
+            by simp [setRec], by simp [setRec]⟩
+          · simp [setRec, getRec, Store.alookup_ainsert_self]
+          · intro d sw hd
+            simp only [Kind.commit.injEq] at hd
+            have := hk d hd.1
+            simpa [setRec] using this
+          · intro b' sw' hd
+            simp only [Kind.commit.injEq] at hd
+            obtain ⟨rfl, rfl⟩ := hd
+            simpa [setRec] using hme
+          · intro ep q hq
+            have := secretsOK_ensure c.g hsec ep q (by simpa [setRec] using hq)
+            simpa [setRec] using this
+          · intro s hs
+            have := hm s (by simpa [setRec] using hs)
+            simpa [setRec] using this
 
 theorem sibs2_of (c : Cl) (o : Ev) (S : List Ev) (hn : c.g.recNid = c.g.nid) (ho : OwnCommit c o) (h : Siblings c S)
     (hd : ∀ e ∈ S, e.n ≠ o.n ∧ (e.ts, e.idnum) ≠ (o.ts, o.idnum)) : Sibs2 c o S where
   own := ⟨ho.path, ho.kind, by simp [ho.own], ho.ts, ho.pending, ho.record, ho.tag,
-    fun b sw hk => keeps_nid c hn b (fun d hd => ho.keepsId d sw (by rw [hk, hd]))⟩
+    fun b sw hk => keeps_nid c hn b (fun d hd => ho.keepsId d sw (by rw [hk, hd])), ho.keepsMe⟩
   sib := (sibs_of c S hn h).sib
   cinj := (sibs_of c S hn h).cinj
   inj := by
@@ -450,7 +538,7 @@ theorem sibs2_of (c : Cl) (o : Ev) (S : List Ev) (hn : c.g.recNid = c.g.nid) (ho
     minimum `w` of the delivered ones, with `w`'s group state (no pending commit left), `w`'s record
     ProcessedCommit, and every other delivered FOREIGN sibling blocked -/
 theorem single_fork_committer (c : Cl) (o : Ev) (S : List Ev) (l : List Ev) (nx : Nat)
-    (hg : c.hasGroup = true) (hr : 1 ≤ c.retention) (hsec : SecretsOK c.g) (hm : NoForkSnapshot c)
+    (hg : c.hasGroup = true) (ha : c.g.active = true) (hr : 1 ≤ c.retention) (hsec : SecretsOK c.g) (hm : NoForkSnapshot c)
     (hn : c.g.recNid = c.g.nid)
     (ho : OwnCommit c o) (hS : Siblings c S)
     (hd : ∀ e ∈ S, e.n ≠ o.n ∧ (e.ts, e.idnum) ≠ (o.ts, o.idnum))
@@ -461,7 +549,7 @@ theorem single_fork_committer (c : Cl) (o : Ev) (S : List Ev) (l : List Ev) (nx 
       (l.foldl (fun c e => (deliver c e nx).1) c).g.pending = none ∧
       (getRec (l.foldl (fun c e => (deliver c e nx).1) c) w.n).map (·.state) = some 2 ∧
       ∀ e ∈ l, e ≠ w → e ≠ o → ∃ r, getRec (l.foldl (fun c e => (deliver c e nx).1) c) e.n = some r ∧ (r.state = 3 ∨ r.state = 4) := by
-  have hb := base_of c hg hr hsec hm
+  have hb := base_of c hg ha hr hsec hm
   have hSs := sibs2_of c o S hn ho hS hd
   have hrel := rel2_run c hb o S hSs nx l c ⟨none, []⟩ (rel2_init c hb o S hSs) (by simp [FInv]) hl
   obtain ⟨ka, hka, hap, hmin, hblk⟩ := single_fork2 (key o) (l.map key) (by simpa using hne)
@@ -519,6 +607,9 @@ theorem reachable_hinv (id : Nat) (p : Bool) (r : Nat) (ms as : List Nat) (name 
       | send n ts idn mid mts tok => exact hinv_send c n ts idn mid mts tok h
       | stage n ts idn b na => exact hinv_stageCommit c n ts idn b na h
       | data n ts idn u => exact hinv_updateData c n ts idn u h
+      | remove n ts idn who => exact hinv_removeMembers c n ts idn who h
+      | add n ts idn who => exact hinv_addMembers c n ts idn who h
+      | join mp g e => exact hinv_join c mp g e h
       | leave n ts idn => exact hinv_leave c n ts idn h
       | merge => exact hinv_merge c h
       | clear => exact hinv_clear c h
@@ -540,14 +631,15 @@ theorem secrets_follow_path (id : Nat) (p : Bool) (r : Nat) (ms as : List Nat) (
 theorem single_fork_reachable (id : Nat) (p : Bool) (r : Nat) (ms as : List Nat) (name : Nat) (ops : List C08.COp)
     (S l : List Ev) (nx : Nat)
     (hg : (ops.foldl C08.cstep (initCl id p r ms as name)).hasGroup = true)
+    (ha : (ops.foldl C08.cstep (initCl id p r ms as name)).g.active = true)
     (hr : 1 ≤ (ops.foldl C08.cstep (initCl id p r ms as name)).retention)
     (hS : Siblings (ops.foldl C08.cstep (initCl id p r ms as name)) S) (hl : ∀ e ∈ l, e ∈ S) (hne : l ≠ []) :
     ∃ w ∈ l, (∀ e ∈ l, e = w ∨ klt (key w) (key e) = true) ∧
       (l.foldl (fun c e => (deliver c e nx).1) (ops.foldl C08.cstep (initCl id p r ms as name))).g.path =
         (ops.foldl C08.cstep (initCl id p r ms as name)).g.path ++ [w.cipher] := by
   obtain ⟨h1, h2, _⟩ := secrets_follow_path id p r ms as name ops
-  have hn := (C08.sync_inv id p r ms as name ops).2.2.2.2.2
-  obtain ⟨w, hw, hmin, hp, _⟩ := single_fork_bystander _ S l nx hg hr h1 h2 hn hS hl hne
+  have hn := (C08.sync_inv id p r ms as name ops ha).2.2.2.2.2
+  obtain ⟨w, hw, hmin, hp, _⟩ := single_fork_bystander _ S l nx hg ha hr h1 h2 hn hS hl hne
   exact ⟨w, hw, hmin, hp⟩
 
 end MdkVerif.Props.C01Fork
